@@ -29,6 +29,7 @@ META = {
     'technique': 'static analysis: abstract interpretation of the entry points with recording primitives over given/omitted '
                  'scenarios; who-may-write inventory',
 }
+META['text'] += ' pretty_repr reaches the pipeline with the same settings as pformat under changed defaults.'
 
 SETTINGS_MIN = 6
 
